@@ -100,22 +100,14 @@ def run(rep: Report, tier: str) -> None:
     classes = fnlog.Classes()
     events: List[List[Any]] = []
     cfg_of: Dict[int, Dict[str, Any]] = {}
-    for cid, cfg in enumerate(cfgs, start=1):
-        cfg_of[cid] = cfg
+    cids = fnlog.family_ids(cfgs)
+    for cid, cfg in zip(cids, cfgs):
+        cfg_of.setdefault(cid, cfg)
         ev, raw = fnlog.events_for_cfg(cid, cfg, False, True, classes)
         events += ev
         rep.case((cfg["op"], json.dumps(cfg, sort_keys=True, default=str)))
-    hist_ev = fnlog.other_history_events(cfgs if tier == "quick" else cfgs[:: 4], False, True, classes) if tier == "quick" else []
-    if tier != "quick":   # thorough: every 4th configuration keeps its id
-        sub = cfgs[::4]
-        raw = fnlog.other_history_events(sub, False, True, fnlog.Classes(raw=True))
-        for e in raw:
-            real_cid = (e[2] - 1) * 4 + 1
-            _, ct = fnlog.tol_of(cfgs[real_cid - 1])
-            e[2] = real_cid
-            if isinstance(e[4], list):
-                e[4] = classes.cls((real_cid, e[3]), e[4][1], ct)
-        hist_ev = raw
+    step = 1 if tier == "quick" else 4      # thorough: every 4th configuration goes through the second history
+    hist_ev = fnlog.other_history_events(cfgs[::step], cids[::step], False, True, classes)
     events += hist_ev
     events.sort(key=lambda e: e[2])     # stable: per configuration id, this process's events first, then the other history's
     rep.extra["events_from_the_reverse_order_history"] = len(hist_ev)
